@@ -283,6 +283,14 @@ pub fn scenario(g: &mut G, ctx: &RunCtx) -> RunReport {
             fields.push(Field { name: format!("X-Rep-{}", j % 5), raw: j.to_string().into_bytes() });
         }
         g.probe("more-than-2^15-field-lines-over-few-names");
+    } else if limit == 100_000 && (20..30).contains(&nfields) {
+        // (no draw) ... or a few hundred long lines: a head of several megabytes, every line within the line limit
+        // and their number within the caller's
+        for j in 0..300usize {
+            let raw: Vec<u8> = (0..15_900 + j % 64).map(|k| b"abcdefghijklmnopqrstuvwxyz0123456789"[(j + k) % 36]).collect();
+            fields.push(Field { name: format!("X-Long-{}", j % 7), raw });
+        }
+        g.probe("head-of-several-megabytes-in-long-lines");
     }
     let nfields = fields.len().max(nfields);
     let mut wire = Vec::new();
